@@ -1,133 +1,6 @@
-/-
-  Tie T2: facts read off /repo's source on this run (Psa/Generated/Facts.lean)
-  equal the values the model was written against.  One named theorem per fact,
-  so a broken tie names the fact.  Facts the theorems quantify over (getter
-  order, AAD bytes) are tied by the weaker obligations the theorems need.
--/
-import Psa.Generated.Facts
-namespace Psa.Tie.Facts
-open Psa Psa.Generated
-
-/-! ### constants and names -/
-theorem implIDLen : List.lookup "ImplIDLen" Facts.intConsts = some 32 := by decide
-theorem instIDLen : List.lookup "InstIDLen" Facts.intConsts = some 33 := by decide
-theorem lifecycle_bounds :
-    [ "SecurityLifecycleUnknownMin", "SecurityLifecycleUnknownMax",
-      "SecurityLifecycleAssemblyAndTestMin", "SecurityLifecycleAssemblyAndTestMax",
-      "SecurityLifecyclePsaRotProvisioningMin", "SecurityLifecyclePsaRotProvisioningMax",
-      "SecurityLifecycleSecuredMin", "SecurityLifecycleSecuredMax",
-      "SecurityLifecycleNonPsaRotDebugMin", "SecurityLifecycleNonPsaRotDebugMax",
-      "SecurityLifecycleRecoverablePsaRotDebugMin", "SecurityLifecycleRecoverablePsaRotDebugMax",
-      "SecurityLifecycleDecommissionedMin", "SecurityLifecycleDecommissionedMax" ].map (fun k => List.lookup k Facts.intConsts)
-    = [some 0x0000, some 0x00ff, some 0x1000, some 0x10ff, some 0x2000, some 0x20ff, some 0x3000, some 0x30ff,
-       some 0x4000, some 0x40ff, some 0x5000, some 0x50ff, some 0x6000, some 0x60ff] := by decide
-theorem state_codes :
-    ["StateUnknown", "StateAssemblyAndTest", "StatePSAROTProvisioning", "StateSecured", "StateNonPSAROTDebug",
-     "StateRecoverablePSAROTDebug", "StateDecommissioned", "StateInvalid"].map (fun k => List.lookup k Facts.intConsts)
-    = [some 0, some 1, some 2, some 3, some 4, some 5, some 6, some 7] := by decide
-theorem profile1Name : Facts.profile1Name = "PSA_IOT_PROFILE_1" := by decide
-theorem profile2Name : Facts.profile2Name = "http://arm.com/psa/2.0.0" := by decide
-
-/-! ### the two certification-reference patterns (normal form) -/
-theorem certRefP1RE : Facts.certificationReferenceP1RE =
-    some { anchoredStart := true, anchoredEnd := true, items := [("digit", 13)] } := by decide
-theorem certRefP2RE : Facts.certificationReferenceP2RE =
-    some { anchoredStart := true, anchoredEnd := true, items := [("digit", 13), ("lit:-", 1), ("digit", 5)] } := by decide
-
-/-! ### getter coverage of the two validation walks (order is irrelevant: C01.validate_order_irrelevant) -/
-theorem validateClaims_covers :
-    ∀ g ∈ ["GetProfile", "GetClientID", "GetSecurityLifeCycle", "GetImplID", "GetBootSeed",
-           "GetCertificationReference", "GetSoftwareComponents", "GetNonce", "GetInstID", "GetVSI"],
-      g ∈ Facts.validateClaimsOrder := by decide
-theorem validateSwComponent_covers :
-    ∀ g ∈ ["GetMeasurementType", "GetMeasurementValue", "GetVersion", "GetSignerID", "GetMeasurementDesc"],
-      g ∈ Facts.validateSwComponentOrder := by decide
-
-/-! ### struct tags: CBOR keys, types, omitempty, JSON names -/
-theorem fieldsP1Claims : Facts.fieldsP1Claims = [
-  { name := "Profile", goType := "*string", cborKey := (-75000), keyAsInt := true, cborOmitEmpty := true, cborSkip := false, jsonName := "psa-profile", jsonOmitEmpty := true, jsonSkip := false },
-  { name := "ClientID", goType := "*int32", cborKey := (-75001), keyAsInt := true, cborOmitEmpty := false, cborSkip := false, jsonName := "psa-client-id", jsonOmitEmpty := false, jsonSkip := false },
-  { name := "SecurityLifeCycle", goType := "*uint16", cborKey := (-75002), keyAsInt := true, cborOmitEmpty := false, cborSkip := false, jsonName := "psa-security-lifecycle", jsonOmitEmpty := false, jsonSkip := false },
-  { name := "ImplID", goType := "*[]byte", cborKey := (-75003), keyAsInt := true, cborOmitEmpty := false, cborSkip := false, jsonName := "psa-implementation-id", jsonOmitEmpty := false, jsonSkip := false },
-  { name := "BootSeed", goType := "*[]byte", cborKey := (-75004), keyAsInt := true, cborOmitEmpty := false, cborSkip := false, jsonName := "psa-boot-seed", jsonOmitEmpty := false, jsonSkip := false },
-  { name := "CertificationReference", goType := "*string", cborKey := (-75005), keyAsInt := true, cborOmitEmpty := true, cborSkip := false, jsonName := "psa-hwver", jsonOmitEmpty := true, jsonSkip := false },
-  { name := "SwComponents", goType := "ISwComponents", cborKey := (-75006), keyAsInt := true, cborOmitEmpty := true, cborSkip := false, jsonName := "psa-software-components", jsonOmitEmpty := true, jsonSkip := false },
-  { name := "NoSwMeasurements", goType := "*uint", cborKey := (-75007), keyAsInt := true, cborOmitEmpty := true, cborSkip := false, jsonName := "psa-no-software-measurements", jsonOmitEmpty := true, jsonSkip := false },
-  { name := "Nonce", goType := "*[]byte", cborKey := (-75008), keyAsInt := true, cborOmitEmpty := false, cborSkip := false, jsonName := "psa-nonce", jsonOmitEmpty := false, jsonSkip := false },
-  { name := "InstID", goType := "*[]byte", cborKey := (-75009), keyAsInt := true, cborOmitEmpty := false, cborSkip := false, jsonName := "psa-instance-id", jsonOmitEmpty := false, jsonSkip := false },
-  { name := "VSI", goType := "*string", cborKey := (-75010), keyAsInt := true, cborOmitEmpty := true, cborSkip := false, jsonName := "psa-verification-service-indicator", jsonOmitEmpty := true, jsonSkip := false },
-  { name := "CanonicalProfile", goType := "string", cborKey := 0, keyAsInt := false, cborOmitEmpty := false, cborSkip := true, jsonName := "-", jsonOmitEmpty := false, jsonSkip := true }
-] := by decide
-theorem fieldsP2Claims : Facts.fieldsP2Claims = [
-  { name := "Profile", goType := "*eat.Profile", cborKey := (265), keyAsInt := true, cborOmitEmpty := false, cborSkip := false, jsonName := "eat-profile", jsonOmitEmpty := false, jsonSkip := false },
-  { name := "ClientID", goType := "*int32", cborKey := (2394), keyAsInt := true, cborOmitEmpty := false, cborSkip := false, jsonName := "psa-client-id", jsonOmitEmpty := false, jsonSkip := false },
-  { name := "SecurityLifeCycle", goType := "*uint16", cborKey := (2395), keyAsInt := true, cborOmitEmpty := false, cborSkip := false, jsonName := "psa-security-lifecycle", jsonOmitEmpty := false, jsonSkip := false },
-  { name := "ImplID", goType := "*[]byte", cborKey := (2396), keyAsInt := true, cborOmitEmpty := false, cborSkip := false, jsonName := "psa-implementation-id", jsonOmitEmpty := false, jsonSkip := false },
-  { name := "BootSeed", goType := "*[]byte", cborKey := (2397), keyAsInt := true, cborOmitEmpty := true, cborSkip := false, jsonName := "psa-boot-seed", jsonOmitEmpty := true, jsonSkip := false },
-  { name := "CertificationReference", goType := "*string", cborKey := (2398), keyAsInt := true, cborOmitEmpty := true, cborSkip := false, jsonName := "psa-certification-reference", jsonOmitEmpty := true, jsonSkip := false },
-  { name := "SwComponents", goType := "ISwComponents", cborKey := (2399), keyAsInt := true, cborOmitEmpty := false, cborSkip := false, jsonName := "psa-software-components", jsonOmitEmpty := false, jsonSkip := false },
-  { name := "Nonce", goType := "*eat.Nonce", cborKey := (10), keyAsInt := true, cborOmitEmpty := false, cborSkip := false, jsonName := "psa-nonce", jsonOmitEmpty := false, jsonSkip := false },
-  { name := "InstID", goType := "*eat.UEID", cborKey := (256), keyAsInt := true, cborOmitEmpty := false, cborSkip := false, jsonName := "psa-instance-id", jsonOmitEmpty := false, jsonSkip := false },
-  { name := "VSI", goType := "*string", cborKey := (2400), keyAsInt := true, cborOmitEmpty := true, cborSkip := false, jsonName := "psa-verification-service-indicator", jsonOmitEmpty := true, jsonSkip := false },
-  { name := "CanonicalProfile", goType := "string", cborKey := 0, keyAsInt := false, cborOmitEmpty := false, cborSkip := true, jsonName := "-", jsonOmitEmpty := false, jsonSkip := true }
-] := by decide
-theorem fieldsSwComponent : Facts.fieldsSwComponent = [
-  { name := "MeasurementType", goType := "*string", cborKey := (1), keyAsInt := true, cborOmitEmpty := true, cborSkip := false, jsonName := "measurement-type", jsonOmitEmpty := true, jsonSkip := false },
-  { name := "MeasurementValue", goType := "*[]byte", cborKey := (2), keyAsInt := true, cborOmitEmpty := false, cborSkip := false, jsonName := "measurement-value", jsonOmitEmpty := false, jsonSkip := false },
-  { name := "Version", goType := "*string", cborKey := (4), keyAsInt := true, cborOmitEmpty := true, cborSkip := false, jsonName := "version", jsonOmitEmpty := true, jsonSkip := false },
-  { name := "SignerID", goType := "*[]byte", cborKey := (5), keyAsInt := true, cborOmitEmpty := false, cborSkip := false, jsonName := "signer-id", jsonOmitEmpty := false, jsonSkip := false },
-  { name := "MeasurementDesc", goType := "*string", cborKey := (6), keyAsInt := true, cborOmitEmpty := true, cborSkip := false, jsonName := "measurement-description", jsonOmitEmpty := true, jsonSkip := false }
-] := by decide
-
-/-! ### codec options -/
-theorem encOptions_indefForbidden : ("IndefLength", "cbor.IndefLengthForbidden") ∈ Facts.encOptions := by decide
-theorem decOptions_indefForbidden : ("IndefLength", "cbor.IndefLengthForbidden") ∈ Facts.decOptions := by decide
-
-/-! ### envelope -/
-theorem aad_sign_eq_verify : Facts.signAAD = Facts.verifyAAD ∧ Facts.signAAD ≠ none := by decide
-theorem aad_empty : Facts.signAAD = some "[]byte(\"\")" := by decide
-theorem verify_alg_from_protected : Facts.verifyAlgSource = "e.message.Headers.Protected" := by decide
-theorem fresh_message_first :
-    Facts.firstStmtSign = "e.message = cose.NewSign1Message()" ∧
-    Facts.firstStmtValidateAndSign = "e.message = cose.NewSign1Message()" ∧
-    Facts.firstStmtUnmarshalCOSE = "e.message = cose.NewSign1Message()" := by decide
-
-/-! ### package-level state: written only by registration -/
-theorem globalWriters : Facts.globalWriters = [("psatoken", "registerProfileUnderName", "profilesRegister")] := by decide
-
-/-! ### read-side methods: exist, and those with pointer receivers assign no receiver field -/
-def readSide : List (String × String) :=
-  [("Evidence", "Verify"), ("Evidence", "GetInstanceID"), ("Evidence", "GetImplementationID"), ("Evidence", "MarshalJSON"),
-   ("P1Claims", "Validate"), ("P1Claims", "MarshalCBOR"), ("P1Claims", "MarshalJSON"),
-   ("P1Claims", "GetProfile"), ("P1Claims", "GetClientID"), ("P1Claims", "GetSecurityLifeCycle"), ("P1Claims", "GetImplID"),
-   ("P1Claims", "GetBootSeed"), ("P1Claims", "GetCertificationReference"), ("P1Claims", "GetSoftwareComponents"),
-   ("P1Claims", "GetNonce"), ("P1Claims", "GetInstID"), ("P1Claims", "GetVSI"),
-   ("P2Claims", "Validate"),
-   ("P2Claims", "GetProfile"), ("P2Claims", "GetClientID"), ("P2Claims", "GetSecurityLifeCycle"), ("P2Claims", "GetImplID"),
-   ("P2Claims", "GetBootSeed"), ("P2Claims", "GetCertificationReference"), ("P2Claims", "GetSoftwareComponents"),
-   ("P2Claims", "GetNonce"), ("P2Claims", "GetInstID"), ("P2Claims", "GetVSI"),
-   ("SwComponent", "Validate"), ("SwComponent", "GetMeasurementType"), ("SwComponent", "GetMeasurementValue"),
-   ("SwComponent", "GetVersion"), ("SwComponent", "GetSignerID"), ("SwComponent", "GetMeasurementDesc"),
-   ("SwComponents", "Validate"), ("SwComponents", "Values"), ("SwComponents", "IsEmpty"),
-   ("SwComponents", "MarshalCBOR"), ("SwComponents", "MarshalJSON")]
-
-theorem readside_exist :
-    ∀ rm ∈ readSide, Facts.methods.any (fun m => m.recv == rm.1 && m.name == rm.2) = true := by decide
-
-theorem readside_pointer_methods_assign_nothing :
-    ∀ m ∈ Facts.methods, (m.recv, m.name) ∈ readSide → m.pointer = true → m.assigns = [] := by decide
-
-/-- value-receiver read-side methods may normalise their private copy only -/
-theorem readside_value_methods_own_copy :
-    ∀ m ∈ Facts.methods, (m.recv, m.name) ∈ readSide → m.assigns ≠ [] → m.pointer = false := by decide
-
-/-! ### encoding package: the field map is not pre-sized from the declared length (C06) -/
-/-- the only `make` calls with a size are sized from slices already in memory — none from a length a sender declares,
-    and none anywhere in the encoding package -/
-theorem sized_makes : Facts.sizedMakes =
-    [("psatoken", "SwComponents.Values", "len(o.values)"), ("psatoken", "validateAndConvert", "len(vals)")] := by decide
-
-/-- `FromCBOR` takes the definite-length branch exactly when the additional information is not 31 -/
-theorem fromCBOR_indefinite_test : Facts.fromCBORIndefiniteTest = "additionalInfo!=31" := by decide
-
-end Psa.Tie.Facts
+/- Tie T2, all topics (umbrella; the checks import the topic modules under Psa/Tie/Facts/). -/
+import Psa.Tie.Facts.Consts
+import Psa.Tie.Facts.Fields
+import Psa.Tie.Facts.Envelope
+import Psa.Tie.Facts.State
+import Psa.Tie.Facts.Alloc
